@@ -18,15 +18,12 @@ CLAIMS = {
  "C03": ("Lean theorem C03_accepted, with no hypothesis beyond acceptance: for every accepted statement list, every flag set and iteration order, in every state where the bank signals are present (every state a run reaches, by C07_accepted), the clock edge sets every register of a bank to its default if the bank's bubble signal is non-zero, else keeps it if stall is non-zero, else loads the end-of-cycle value of its input; no other wire changes. The side conditions of the bank lemmas C03_bank_edge / C03_edge (outputs of a bank distinct, inputs never outputs, control signals never register signals, names of different banks disjoint, every default belongs to an output) are derived from the register-bank stage of Program::new (step3_facts: all signal names distinct, shapes of names). That outputs do not change within a cycle is C01_accepted (stability).",
          'Stall/bubble histories come from induction over cycles (C07_soundness keeps the presence hypothesis); the S-PROG banks profile ties the model to the code.',
          'Lean 4 proof (fold invariants over defaults/signals, frame lemma across banks) + differential oracle'),
- "C04": ('Lean theorems C04_accepted_order (for every accepted statement list, flag set and iteration order: all value-writing actions, the two register read ports among them, come before all state-changing actions, and those are a sub-sequence of Stat, memory write, register write E, register write M in this order), C04_read (read port = start-of-cycle register), C04_write_port, C04_write_E_then_M (the two write ports in that order equal Spec.regWrite applied for E then M), C04_M_wins, C04_reg15 and C04_reg15_invariant (no action ever changes register 15; all registers start at 0).',
+ "C04": ('Lean theorems C04_accepted_order (for every accepted statement list, flag set and iteration order: all value-writing actions, the two register read ports among them, come before all state-changing actions, and those are a sub-sequence of Stat, memory write, register write E, register write M in this order), C04_read (read port = start-of-cycle register), C04_write_port, C04_write_E_then_M (the two write ports in that order equal Spec.regWrite applied for E then M), C04_M_wins, C04_reg15 and C04_reg15_invariant (no action ever changes register 15; all registers start at 0). C04_C05_accepted_effect composes them for every accepted program: after any completed cycle the register file is the start-of-cycle one with the write of port E applied first and that of port M second (each present iff the design wires the port; portWrite = Spec.regWrite for 4-bit destinations, never register 15), the operands being read from the settled valuation.',
          "The composition 'cycle of an accepted program = reads of the old file, then regWrite E, then regWrite M' is assembled per program by the differential oracle (collision coverage), the pieces are theorems.",
          'Lean 4 proof + schedule validation + differential oracle with collision coverage'),
- "C05": ("Lean theorems C05_read_spec / C05_write_spec (the BTreeMap model's read and write are the specified little-endian "
-         "rdLE/wrLE over addresses modulo 2^64), wrLE_hit / wrLE_other / C05_read_after_write / C05_last_write_wins / "
-         "C05_untouched (every byte is the most recent earlier write to its address, else the image; wrap-around included), "
-         "C05_read_port / C05_instruction_port / C05_write_port (enable semantics of the ports). Reads see start-of-cycle memory by "
-         "C01_settlement; the write is among the final actions (validated per schedule).",
-         "", "Lean 4 proof (function-update reasoning, induction over histories) + differential oracle"),
+ "C05": ("Lean theorems C05_read_spec / C05_write_spec (the BTreeMap model's read and write are the specified little-endian rdLE/wrLE over addresses modulo 2^64), wrLE_hit / wrLE_other / C05_read_after_write / C05_last_write_wins / C05_untouched (every byte is the most recent earlier write to its address, else the image; wrap-around included), C05_read_port / C05_instruction_port / C05_write_port (enable semantics of the ports). Reads see start-of-cycle memory by C01_settlement; the write is among the final actions (validated per schedule). C04_C05_accepted_effect composes them for every accepted program: after any completed cycle, memory is the start-of-cycle memory with the 8-byte little-endian store applied iff the write port is wired and mem_writebit is non-zero in the settled valuation; reads (value-writing actions) see the start-of-cycle memory by C01_accepted.",
+         '',
+         'Lean 4 proof (function-update reasoning, induction over histories) + differential oracle'),
  "C06": ("Lean theorems C06_terminates (the run loop never exhausts the fuel timeout+1-cycle: run() terminates within timeout "
          "cycles), C06_stop (it returns after exactly k cycles where the k-th state is the first that is done: status outside "
          "{AOK,BUB} or budget used), C06_within_timeout (cycle count <= timeout; 0 cycles for timeout 0), C06_report (banner and "
